@@ -55,8 +55,19 @@ def tmap(fn, items, threads=None):
 
 
 def apply_controls(run, tier):
-    """Thorough tier: every negative control must be killed by a named obligation, else exit 3"""
+    """
+    Thorough tier, and only when the run itself is clean (no violation, nothing undecided): every negative control must
+    be killed by a named obligation and every benign control must stay quiet, else exit 3.  On a tree that already fails
+    or does not attach, the controls would say nothing about the engine, so they are skipped (recorded in the evidence).
+    A control whose edit no longer applies to the current source is recorded as stale -- a note, not an error: it says
+    the control file is behind the code, nothing about the property.
+    """
     if tier != "thorough" or os.environ.get("VERIF_NO_CONTROLS"):
+        return
+    from cddvc.report import PROVED
+
+    if run.violations or run.undecided or any(o["status"] != PROVED for o in run.obligations.values()):
+        run.negative_controls = {"applied": 0, "killed": 0, "table": [], "skipped": "the run itself is not clean (violation / undecided obligation): controls not run"}
         return
     from checks import controls
 
@@ -64,10 +75,14 @@ def apply_controls(run, tier):
     if r is None:
         return
     run.negative_controls = {k: r[k] for k in ("applied", "killed", "table")}
-    for s in r["survivors"]:
-        run.errors.append("negative control survived (engine unsound or contract too weak): %s (exit %s)" % (s["name"], s.get("exit")))
-    for s in r["stale"]:
-        run.errors.append("negative control no longer applies to the current source (update controls/%s.py): %s" % (run.prop, s["name"]))
+    run.negative_controls["stale"] = [s_["name"] for s_ in r["stale"]]
+    for s_ in r["survivors"]:
+        if s_.get("benign"):
+            run.errors.append("benign control raised an alarm (false alarm of this check on a behaviour-preserving rewrite): %s (exit %s)" % (s_["name"], s_.get("exit")))
+        else:
+            run.errors.append("negative control survived (engine unsound or contract too weak): %s (exit %s)" % (s_["name"], s_.get("exit")))
+    for s_ in r["stale"]:
+        print("NOTE property=%s control no longer applies to the current source (controls/%s.py is behind the code): %s" % (run.prop, run.prop, s_["name"]))
 
 
 def lean_theorems(run, prop, filename, theorems):
